@@ -13,8 +13,16 @@ Tie (see DESIGN §7.C14):
 Finding regions (known_findings.json, status open) are exercised by the grid as well: there the model must still
 agree with the code, and the oracle's alarms are attributed to the region instead of being reported.
 """
-import os, json, glob, time, random, tempfile, shutil, multiprocessing as mp
+import os, gc, json, glob, time, random, tempfile, shutil, multiprocessing as mp
 import c14lib as L
+
+
+def _pool():
+    """A fork pool whose workers do not re-scan the parent's heap on every full collection (a parent that has
+    elaborated thousands of Migen objects otherwise slows its children tenfold)."""
+    gc.collect()
+    gc.freeze()
+    return mp.get_context("fork").Pool(procs(), maxtasksperchild=40)
 
 VERIF = os.path.dirname(os.path.dirname(os.path.dirname(os.path.abspath(__file__))))
 CORPUS = os.path.join(VERIF, "corpus", "C14")
@@ -24,7 +32,7 @@ CORPUS = os.path.join(VERIF, "corpus", "C14")
 CANDIDATES = (L.R_CSR8, L.R_LITTLE, L.R_AXIL_RD)
 
 QUICK = {"random_socs": 7, "mem": 600, "export": 500, "max_regs": 14, "sweeps": 6, "verdicts": 40, "irqs": 12}
-THOROUGH = {"random_socs": 110, "mem": 8000, "export": 6000, "max_regs": None, "sweeps": 60, "verdicts": 400, "irqs": 200}
+THOROUGH = {"random_socs": 80, "mem": 6000, "export": 4000, "max_regs": None, "sweeps": 48, "verdicts": 300, "irqs": 150}
 
 
 class Dis:
@@ -115,7 +123,7 @@ def run_socs(ctx, jobs, dis, label):
     tol = tolerated(ctx)
     n = nontriv = nlines = 0
     t0 = time.time()
-    with mp.get_context("fork").Pool(procs()) as pool:
+    with _pool() as pool:
         for rec in pool.imap_unordered(L.soc_task, jobs, chunksize=1):
             _account(ctx, rec)
             nlines += _compare(ctx, rec, dis, tol)
@@ -184,7 +192,7 @@ def mode_c(ctx, plan, dis):
 def run_sweeps(ctx, plan, dis):
     rng = random.Random(ctx.rng.getrandbits(48))
     t0 = time.time()
-    with mp.get_context("fork").Pool(procs()) as pool:
+    with _pool() as pool:
         sweeps = pool.map(L.sweep_case, [(rng.getrandbits(32),) for _ in range(plan["sweeps"])], chunksize=1)
         verdicts = pool.map(L.verdict_case, [(rng.getrandbits(32),) for _ in range(plan["verdicts"])], chunksize=4)
         irqs = pool.map(L.irq_case, [(rng.getrandbits(32),) for _ in range(plan["irqs"])], chunksize=2)
@@ -227,8 +235,12 @@ def correspond(ctx):
     rng = random.Random(ctx.rng.getrandbits(48))
     def cap(cfg):
         # 8-bit CSR buses quadruple the sub-accesses (and the AXI converters are slow to simulate): sample registers
-        if plan["max_regs"] is not None and cfg["csr_dw"] == 8:
+        if cfg["csr_dw"] == 8:
+            if plan["max_regs"] is None:
+                return 8 if cfg["bus"] != "wishbone" else 16
             return 5 if cfg["bus"] != "wishbone" else 8
+        if plan["max_regs"] is None and cfg["bus"] == "axi":
+            return 16
         return plan["max_regs"]
     jobs = [(cfg, rng.getrandbits(32), cap(cfg)) for cfg in grid(rng)]
     for _ in range(plan["random_socs"]):
@@ -237,8 +249,8 @@ def correspond(ctx):
     # slow simulations first so the pool stays busy
     jobs.sort(key=lambda j: (j[0]["csr_dw"] != 8 or j[0]["bus"] == "wishbone", j[0]["bus"] != "axi", j[0]["bus"] != "axi-lite"))
     run_socs(ctx, jobs, dis, "end-to-end SoCs: every exported address accessed through the bus master")
-    mode_c(ctx, plan, dis)
     run_sweeps(ctx, plan, dis)
+    mode_c(ctx, plan, dis)
     ctx.rule = ("one case = one finalized SoC whose every exported address was accessed in simulation (plus its model "
                 "calls), one get_mem_data image, or one exporter run; non-trivial = at least one register write was "
                 "performed through an exported address (SoCs), every image/export case")
@@ -394,7 +406,7 @@ def search(ctx, disagreements, proof_info):
     while time.time() - t0 < budget:
         if not jobs:
             jobs = [(L.gen_cfg(rng, bus=rng.choice(("wishbone", "axi-lite"))), rng.getrandbits(32), None) for _ in range(procs())]
-        with mp.get_context("fork").Pool(procs()) as pool:
+        with _pool() as pool:
             recs = pool.map(L.soc_task, jobs, chunksize=1)
         jobs = []
         for rec in recs:
